@@ -89,10 +89,14 @@ class ChunkedReader:
         idx = buf.getvalue().find(b"\r\n")
         while idx < 0:
             # do not buffer an endless chunk-size line
-            if buf.tell() > MAX_CHUNK_SIZE_LINE:
+            # (one byte more may be the CR of a CRLF that is still on its way)
+            if buf.tell() > MAX_CHUNK_SIZE_LINE + 1:
                 raise InvalidChunkSize(buf.getvalue()[:32])
             self.get_data(unreader, buf)
             idx = buf.getvalue().find(b"\r\n")
+        # the same limit for a line that arrived in one piece
+        if idx > MAX_CHUNK_SIZE_LINE:
+            raise InvalidChunkSize(buf.getvalue()[:32])
 
         data = buf.getvalue()
         line, rest_chunk = data[:idx], data[idx + 2:]
